@@ -2,38 +2,9 @@ import Jose.Fmt
 import Jose.Cli
 import Jose.Driver.Util
 import Jose.Driver.Prims
+import Jose.Driver.Pure
 namespace Jose.Driver
 open Jose
-
-def strOfHex (h : String) : String :=
-  match String.fromUTF8? (unhexBytes h) with
-  | some s => s
-  | none => ""
-
-def hexOfStr (s : String) : String := hexOfBytes s.toUTF8
-
-def filesArg (a : Json) : List (String × String) :=
-  match a.get? "files" with
-  | some (.obj kvs) => kvs.filterMap (fun (k, v) => v.strVal?.map (fun h => (k, strOfHex h)))
-  | _ => []
-
-def argvOf (a : Json) : List String :=
-  match a.get? "argv" with
-  | some (.arr l) => l.filterMap Json.strVal?
-  | _ => []
-
-def cliResult (status : Nat) (stdout : String) (files : List (String × String)) : Json :=
-  .obj [("status", .int status), ("stdout", .str (hexOfStr stdout)),
-        ("files", .obj (files.map (fun (f, t) => (f, Json.str (hexOfStr t)))))]
-
-def fmtCli (a : Json) (argv : List String) : Json :=
-  let stdin := (argStr? a "stdin").map strOfHex |>.getD ""
-  match Fmt.parseArgv stdin (filesArg a) argv with
-  | none => cliResult 255 "" []          -- option parsing failed: usage, status -1
-  | some ops =>
-    let (st, oc) := Fmt.run ops
-    let (so, fs) := Fmt.finalFiles st.out
-    cliResult (Fmt.exitStatus oc) so fs
 
 def worldOf (a : Json) : Cli.World :=
   { stdin := (argStr? a "stdin").map unhex |>.getD [],
